@@ -210,15 +210,17 @@ theorem appends_storeAddress (a : Addr) : Appends (storeAddress a : BOp R) (eAdd
   cases a with
   | none => exact appends_storeBits _
   | ext len val =>
-    have hin : Appends (storeBits [false, true] ⊳ storeUint len 9 ⊳ (if len = 0 then skip else storeUint val len) : BOp R)
-        (eBits [false, true] +++ eUint 9 len +++ (if len = 0 then eNil else eUint len val)) := by
+    have hin : Appends (storeBits [false, true] ⊳ storeUint len 9 ⊳ (if len = 0 ∧ val = 0 then skip else storeUint val len) : BOp R)
+        (eBits [false, true] +++ eUint 9 len +++ (if len = 0 then (if val = 0 then eNil else none) else eUint len val)) := by
       rw [← Enc.cat_assoc]
       refine Appends.andThen (Appends.andThen (appends_storeBits _) (appends_storeUint _ 9 (by omega))) ?_
       by_cases h : len = 0
-      · simp only [h, if_true]; exact appends_skip
-      · simp only [h, if_false]; exact appends_storeUint _ _ (by omega)
+      · by_cases hv : val = 0
+        · simp only [h, hv, and_self, if_true]; exact appends_skip
+        · simp only [h, hv, and_false, if_true, if_false]; exact appends_none _
+      · simp only [h, false_and, if_false]; exact appends_storeUint _ _ (by omega)
     intro b hb c hc
-    have hc' : (eBits [false, true] +++ eUint 9 (len : Int) +++ (if len = 0 then eNil else eUint len val) : Enc R) = some c := hc
+    have hc' : (eBits [false, true] +++ eUint 9 (len : Int) +++ (if len = 0 then (if val = 0 then eNil else none) else eUint len val) : Enc R) = some c := hc
     -- the inner cell has no refs
     have hc2 : c.2 = [] := by
       obtain ⟨x, y, hx, hy, rfl⟩ := Enc.cat_some hc'
@@ -227,18 +229,20 @@ theorem appends_storeAddress (a : Addr) : Appends (storeAddress a : BOp R) (eAdd
       have h2 : y1.2 = [] := eUint_refs hy1
       have h3 : y2.2 = [] := by
         split at hy2
-        · simp [eNil] at hy2; rw [← hy2]
+        · split at hy2
+          · simp [eNil] at hy2; rw [← hy2]
+          · simp at hy2
         · exact eUint_refs hy2
       simp [h1, h2, h3]
     have hs := hin.sub b hb c hc'
     have key : storeAddress (Addr.ext len val) b
-        = Message.sub (storeBits [false, true] ⊳ storeUint len 9 ⊳ (if len = 0 then skip else storeUint val len)) b := by
+        = Message.sub (storeBits [false, true] ⊳ storeUint len 9 ⊳ (if len = 0 ∧ val = 0 then skip else storeUint val len)) b := by
       simp only [storeAddress, Message.sub]
       obtain ⟨hfit, hnfit⟩ := hin.run hc'
       by_cases hE : c.1.length ≤ 1023 ∧ c.2.length ≤ 4
       · rw [hfit hE]; simp [hc2]
       · have := hnfit hE
-        generalize ((storeBits [false, true] ⊳ storeUint (len : Int) 9 ⊳ (if len = 0 then skip else storeUint val len) : BOp R) Builder.empty) = r at *
+        generalize ((storeBits [false, true] ⊳ storeUint (len : Int) 9 ⊳ (if len = 0 ∧ val = 0 then skip else storeUint val len) : BOp R) Builder.empty) = r at *
         rcases r with ⟨rb, rf⟩
         simp at this; subst this; simp
     rw [key]; exact hs
@@ -338,7 +342,9 @@ theorem nrefs_eAddr (a : Addr) : Enc.nrefs (eAddr a : Enc R) ≤ 0 := by
     unfold eAddr
     refine nrefs_cat_le (x := 0) (y := 0) (nrefs_eBits _) (nrefs_cat_le (x := 0) (y := 0) (nrefs_eUint _ _) ?_)
     split
-    · exact nrefs_eNil
+    · split
+      · exact nrefs_eNil
+      · simp [Enc.nrefs]
     · exact nrefs_eUint _ _
   | std anycast wc hash =>
     unfold eAddr
